@@ -63,7 +63,7 @@ def workload(tier, rng):
         for (c, m) in ((1, 0), (2, 8), (2, 4), (3, 0)):
             if c == 3 and length > 8192:
                 continue
-            k = rng.randint(2, 6); r = rng.randint(3, 5)
+            k = rng.choice([3, 5, 6, 7]); r = rng.randint(3, 5)      # k not a power of two: the replicated payload has period k
             p = P(c, k, r, m=m, N1=3 if c == 3 else 0, seed=rng.randint(1, 10 ** 6), length=length, payload="idr", align=rng.choice([0, 1]))
             execs.append(gen.encode_exec(p, slots=["buf", "null"]))
     # random payloads: only status / slot / source-buffer integrity are observable
